@@ -22,6 +22,11 @@ theorem declared_pipeline :
     Generated.cliReduction = "max" ∧ Generated.cliUnrecognised = [] := by
   decide
 
+/-- the `--start-config` option is declared but never read (the identifier occurs once, in the
+options struct): the state that is optimised and written is built by `from_group` of the REQUESTED
+group and shape only, so a file passed there cannot relabel the output -/
+theorem declared_start_config_unused : Generated.cliStartConfigUses = 1 := by decide
+
 /-- the order `.max()` uses: both state types compare their scores as floating-point numbers
 (`s.partial_cmp(&o)`), `Ord::cmp` is that comparison unwrapped — the model's `maxRight` -/
 theorem declared_ordering :
